@@ -461,6 +461,12 @@ func (net *Net) stabilise() {
 					}()
 				}
 			}
+			// only a view entered after the network turned timely is judged: messages of earlier views may have been
+			// lost before that point, and a member that misses one of them rightly waits for a node sync
+			if cv <= maxV {
+				c.Class("stabilise/committed-in-a-view-from-before")
+				return
+			}
 			for _, m := range G {
 				pp, ok := m.Store.GetPreprepareMessage(primitives.BlockHeight(H), primitives.View(cv))
 				if !ok || pp == nil {
